@@ -16,7 +16,13 @@ file's contents carry pairwise distinct positions. This file derives it from the
    later tokens; sibling sub-parses consume disjoint consecutive segments). The invariant is proved for every
    candidate of the list-of-successes layer (inline function types included) and for all six declaration kinds,
    namespaces and whole files;
-3. `parseText_refPositionsDistinct`: **H4 holds for every accepted text**.
+3. `parseText_refPositionsDistinct`: **H4 holds for every accepted text** (`parseText_refStarts_nodup`: already the
+   start positions `(sl, sc)` of the references are pairwise distinct; `parseFile_cov`: the token-level statement).
+
+Also exported (used by `Props/C03Sound.lean`): the structural inversion lemmas `member_inv`, `typeDecl_interface_inv`,
+`typeDecl_error_inv`, `typeDecl_function_inv` (what an accepted member / declaration of that kind consumed),
+`optKw_sound`, `Member.method?`, `Member.prop?`. The whole-program corollaries without H4 are in
+`Props/C16ProgramPos.lean`.
 -/
 set_option linter.unusedSimpArgs false
 set_option linter.unusedVariables false
